@@ -5,6 +5,7 @@ import (
 	"encoding/json"
 	"fmt"
 	"net/http/httptest"
+	"time"
 
 	"github.com/go-chi/jwtauth/v5"
 	"github.com/gofrs/uuid"
@@ -44,7 +45,13 @@ type httpStatusError struct {
 func (e *httpStatusError) Error() string { return fmt.Sprintf("HTTP %d: %s", e.code, e.body) }
 
 // scheduleVia returns the id of the accepted job or the error of the refusal.
-func (m *Machine) scheduleVia(http bool, p string, vars map[string]interface{}, user string) (uuid.UUID, error) {
+func (m *Machine) scheduleVia(http bool, p string, vars map[string]interface{}, user string) (id uuid.UUID, err error) {
+	if m.window != nil {
+		r := m.window
+		m.window = nil
+		m.inWindow(r, func() { id, err = m.scheduleVia(http, p, vars, user) })
+		return
+	}
 	if !http {
 		job, err := m.w.PR.ScheduleAsync(p, prunner.ScheduleOpts{Variables: vars, User: user})
 		if err != nil {
@@ -123,4 +130,22 @@ func clipStr(s string, n int) string {
 		return s[:n] + "..."
 	}
 	return s
+}
+
+// inWindow runs call while runner r is held inside Finish, lets the runner go when the call has not returned
+// after 3 ms (a runner that completes jobs under its lock makes the call wait), and waits for the call.
+func (m *Machine) inWindow(r *SimRunner, call func()) {
+	done := make(chan struct{})
+	go func() { defer close(done); call() }()
+	select {
+	case <-done:
+		m.w.Stats.hit("completing-window:call-returned-inside")
+	case <-time.After(3 * time.Millisecond):
+		m.w.Stats.hit("completing-window:call-waited")
+	}
+	m.w.mu.Lock()
+	r.holdFinish = false
+	r.holdCond.Broadcast()
+	m.w.mu.Unlock()
+	<-done
 }
